@@ -40,6 +40,10 @@ Section Sim.
   Variable M : matcher.
   Hypothesis Hbin : c_binary cfg = BNone.
   Variable s : bytes.
+  (* the buffer [s] is a window of a stream: it starts at absolute offset [A], after [base] line
+     terminators; [bflag] is Core.binary (irrelevant under Hbin) *)
+  Variable A base : nat.
+  Variable bflag : bool.
   Notation ltb := (lt_byte (c_lt cfg)).
   Notation K := (fun _ : nat => Continue).
 
@@ -59,9 +63,9 @@ Section Sim.
     match bls with
     | [] => True
     | pl :: r =>
-      p_off pl = p /\ sub s p (p + length (p_bytes pl)) = p_bytes pl /\ terminated ltb (p_bytes pl) /\
+      p_off pl = A + p /\ sub s p (p + length (p_bytes pl)) = p_bytes pl /\ terminated ltb (p_bytes pl) /\
       p + length (p_bytes pl) <= length s /\
-      p_lnum pl = 1 + count_lt ltb (firstn p s) /\ laid r (p + length (p_bytes pl))
+      p_lnum pl = 1 + base + count_lt ltb (firstn p s) /\ laid r (p + length (p_bytes pl))
     end.
 
   Definition plen (bls : list pend_line) : nat := length (concat (map p_bytes bls)).
@@ -105,13 +109,13 @@ Section Sim.
   (* line-number bookkeeping *)
   Definition LN (c : core) : Prop :=
     if c_line_number cfg
-    then line_number c = Some (1 + count_lt ltb (firstn (last_line_counted c) s))
+    then line_number c = Some (1 + base + count_lt ltb (firstn (last_line_counted c) s))
     else line_number c = None.
 
   Lemma count_lines_spec c p : LN c -> last_line_counted c <= p ->
     let c1 := count_lines cfg c s p in
     LN c1 /\
-    line_number c1 = (if c_line_number cfg then Some (1 + count_lt ltb (firstn p s)) else None) /\
+    line_number c1 = (if c_line_number cfg then Some (1 + base + count_lt ltb (firstn p s)) else None) /\
     (c_line_number cfg = true -> last_line_counted c1 = p) /\
     (c_line_number cfg = false -> c1 = c) /\
     pos c1 = pos c /\ abs_off c1 = abs_off c /\ bin_off c1 = bin_off c /\
@@ -129,7 +133,7 @@ Section Sim.
                     count_lt ltb (firstn (last_line_counted c) s) + count_lt ltb (sub s (last_line_counted c) p)).
         { rewrite !firstn_sub. rewrite (sub_app_adj s 0 (last_line_counted c) p) by lia.
           apply count_lt_app. }
-        rewrite E. repeat split; auto; try discriminate; try (f_equal; lia).
+        rewrite E. unfold ltb_. repeat split; auto; try discriminate; try (f_equal; lia).
     - rewrite Hln. repeat split; auto; discriminate.
   Qed.
 
@@ -164,8 +168,8 @@ Section Sim.
 
   Lemma before_loop_spec : forall bls p c fuel,
     laid bls p -> length bls < fuel ->
-    bin_off c = None -> abs_off c = 0 -> LN c -> last_line_counted c <= p ->
-    exists c1, before_loop cfg K true fuel c s p (p + plen bls) = OK true c1 /\
+    bin_off c = None -> abs_off c = A -> LN c -> last_line_counted c <= p ->
+    exists c1, before_loop cfg K bflag fuel c s p (p + plen bls) = OK true c1 /\
       match bls with
       | [] => c1 = c
       | _ => log c1 = rev (map (ctx_ev CBefore) bls) ++ log (brk cfg c p) /\
@@ -195,7 +199,7 @@ Section Sim.
       assert (Hc2llv : last_line_visited c2 = p + length (p_bytes x)) by reflexivity.
       assert (Hc2bin : bin_off c2 = None).
       { unfold c2, post_ctx, with_event. cbn [bin_off set_visited set_log]. congruence. }
-      assert (Hc2abs : abs_off c2 = 0).
+      assert (Hc2abs : abs_off c2 = A).
       { unfold c2, post_ctx, with_event. cbn [abs_off set_visited set_log]. congruence. }
       assert (Hc2ln : LN c2).
       { unfold LN in *. unfold c2, post_ctx, with_event. cbn [line_number last_line_counted set_visited set_log]. exact C1. }
@@ -232,9 +236,9 @@ Section Sim.
 
   Lemma before_context_spec c pend upto :
     laid (rev pend) (last_line_visited c) -> last_line_visited c + plen (rev pend) = upto ->
-    bin_off c = None -> abs_off c = 0 -> LN c -> last_line_counted c <= last_line_visited c ->
+    bin_off c = None -> abs_off c = A -> LN c -> last_line_counted c <= last_line_visited c ->
     let fl := rev (firstn (c_before cfg) pend) in
-    exists c1, before_context_by_line cfg K true c s upto = OK true c1 /\
+    exists c1, before_context_by_line cfg K bflag c s upto = OK true c1 /\
       match fl with
       | [] => c1 = c
       | _ => log c1 = rev (map (ctx_ev CBefore) fl) ++ log (brk cfg c (upto - plen fl)) /\
@@ -285,10 +289,10 @@ Section Sim.
     unfold brk. destruct (any_ctx cfg), (has_sunk c), (Nat.ltb (last_line_visited c) p); reflexivity.
   Qed.
 
-  Lemma post_ctx_fields k c rs re : LN c -> last_line_counted c <= rs -> abs_off c = 0 -> bin_off c = None ->
+  Lemma post_ctx_fields k c rs re : LN c -> last_line_counted c <= rs -> abs_off c = A -> bin_off c = None ->
     let c' := post_ctx cfg k c s rs re in
-    pos c' = pos c /\ abs_off c' = 0 /\ bin_off c' = None /\
-    log c' = EContext k rs (lnum_of cfg (1 + count_lt ltb (firstn rs s))) (sub s rs re) :: log c /\
+    pos c' = pos c /\ abs_off c' = A /\ bin_off c' = None /\
+    log c' = EContext k (A + rs) (lnum_of cfg (1 + base + count_lt ltb (firstn rs s))) (sub s rs re) :: log c /\
     after_context_left c' = (match k with CAfter => after_context_left c - 1 | _ => after_context_left c end) /\
     has_sunk c' = true /\ has_matched c' = has_matched c /\ last_line_visited c' = re /\
     last_line_counted c' <= rs /\ LN c'.
@@ -305,10 +309,10 @@ Section Sim.
     - unfold LN in *. cbn [line_number last_line_counted set_visited set_log]. exact C1.
   Qed.
 
-  Lemma post_matched_fields c rs re : LN c -> last_line_counted c <= rs -> abs_off c = 0 -> bin_off c = None ->
+  Lemma post_matched_fields c rs re : LN c -> last_line_counted c <= rs -> abs_off c = A -> bin_off c = None ->
     let c' := post_matched cfg c s rs re in
-    pos c' = pos c /\ abs_off c' = 0 /\ bin_off c' = None /\
-    log c' = EMatched rs (lnum_of cfg (1 + count_lt ltb (firstn rs s))) (sub s rs re) :: log (brk cfg c rs) /\
+    pos c' = pos c /\ abs_off c' = A /\ bin_off c' = None /\
+    log c' = EMatched (A + rs) (lnum_of cfg (1 + base + count_lt ltb (firstn rs s))) (sub s rs re) :: log (brk cfg c rs) /\
     after_context_left c' = c_after cfg /\
     has_sunk c' = true /\ has_matched c' = has_matched c /\ last_line_visited c' = re /\
     last_line_counted c' <= rs /\ LN c'.
@@ -328,26 +332,26 @@ Section Sim.
 
   (* ------------------------------------------------------------------ the simulation relation *)
   Record R0 (c : core) (g : gstate) : Prop := mkR0 {
-    R_abs : abs_off c = 0;
+    R_abs : abs_off c = A;
     R_bin : bin_off c = None;
     R_log : log c = g_out g ++ [EBegin];
     R_after : after_context_left c = g_after g;
     R_sunk : has_sunk c = g_sunk g;
     R_laid : laid (rev (g_pend g)) (last_line_visited c);
-    R_llv : last_line_visited c + plen (rev (g_pend g)) = g_off g;
+    R_llv : A + (last_line_visited c + plen (rev (g_pend g))) = g_off g;
     R_llc : last_line_counted c <= last_line_visited c;
     R_ln : LN c;
-    R_lnum : g_lnum g = 1 + count_lt ltb (firstn (g_off g) s);
+    R_lnum : g_lnum g = 1 + base + count_lt ltb (firstn (g_off g - A) s);
     R_after_pend : 1 <= g_after g -> g_pend g = [];
     R_after_le : g_after g <= c_after cfg;
   }.
   (* R0 mentions neither the scan position nor has_matched: the fast path updates them at other
      moments than the slow path *)
   Definition R (c : core) (g : gstate) : Prop :=
-    pos c = g_off g /\ has_matched c = g_matched g /\ R0 c g.
+    A + pos c = g_off g /\ has_matched c = g_matched g /\ R0 c g.
 
   Definition Rfin (c : core) (g : gstate) : Prop :=
-    pos c = g_off g /\ log c = g_out g ++ [EBegin] /\ bin_off c = None.
+    A + pos c = g_off g /\ log c = g_out g ++ [EBegin] /\ bin_off c = None.
 
   Definition next_line (p : nat) (l : bytes) : Prop :=
     sub s p (p + length l) = l /\ p + length l <= length s /\
@@ -404,9 +408,9 @@ Section Sim.
 
   (* a matching line: before-context, then the match (shared by the slow and the fast path) *)
   Lemma matched_step c g p l :
-    R0 c g -> g_off g = p -> g_stopped g = false -> next_line p l ->
+    R0 c g -> g_off g = A + p -> g_stopped g = false -> next_line p l ->
     let g' := g_step_s cfg g l true in
-    exists c2, before_context_by_line cfg K true (set_has_matched c) s p = OK true c2 /\
+    exists c2, before_context_by_line cfg K bflag (set_has_matched c) s p = OK true c2 /\
       bin_off c2 = None /\
       let c3 := post_matched cfg c2 s p (p + length l) in
       pos c3 = pos c /\ log c3 = g_out g' ++ [EBegin] /\ bin_off c3 = None /\ has_matched c3 = true /\
@@ -417,18 +421,19 @@ Section Sim.
     destruct HR as [Rabs Rbin Rlog Rafter Rsunk Rlaid Rllv Rllc Rln Rlnum Rap Rale].
     destruct Hnl as (Hsub & Hb & Hshape).
     unfold g', g_step_s. rewrite Hns.
-    assert (Hlnum' : terminated ltb l -> S (g_lnum g) = 1 + count_lt ltb (firstn (g_off g + length l) s)).
-    { intro Ht. rewrite Hoff. rewrite (count_lt_next p l Hsub Hb Ht). rewrite Rlnum, Hoff. lia. }
+    assert (Hlnum' : terminated ltb l -> S (g_lnum g) = 1 + base + count_lt ltb (firstn (g_off g + length l - A) s)).
+    { intro Ht. rewrite Hoff. replace (A + p + length l - A) with (p + length l) by lia.
+      rewrite (count_lt_next p l Hsub Hb Ht). rewrite Rlnum, Hoff. replace (A + p - A) with p by lia. lia. }
       set (c1 := set_has_matched c).
       destruct (before_context_spec c1 (g_pend g) p) as (c2 & Hrun & Hpost);
-        [exact Rlaid|rewrite <- Hoff; exact Rllv|exact Rbin|exact Rabs|exact Rln|exact Rllc|].
+        [exact Rlaid|unfold c1; cbn [last_line_visited set_has_matched]; lia|exact Rbin|exact Rabs|exact Rln|exact Rllc|].
       cbn zeta in Hpost.
       set (bl := firstn (c_before cfg) (g_pend g)) in *.
-      assert (Hc2 : bin_off c2 = None /\ abs_off c2 = 0 /\ LN c2 /\ last_line_counted c2 <= p /\
+      assert (Hc2 : bin_off c2 = None /\ abs_off c2 = A /\ LN c2 /\ last_line_counted c2 <= p /\
                     has_matched c2 = true /\ pos c2 = pos c /\
                     last_line_counted c2 <= last_line_visited c2).
       { destruct (rev bl) as [|f0 fr] eqn:Efl.
-        - subst c2. cbn. repeat split; auto. cbn in Rllv. rewrite <- Hoff. lia.
+        - subst c2. cbn. repeat split; auto. cbn in Rllv. lia.
         - destruct Hpost as (_ & P2 & _ & P4 & P5 & (Q1 & Q2 & Q3 & Q4 & Q5)).
           cbn in Q1, Q2, Q3, Q5. repeat split; try congruence; lia. }
       destruct Hc2 as (H2bin & H2abs & H2ln & H2llc & H2m & H2pos & H2llcv).
@@ -443,7 +448,7 @@ Section Sim.
                      ++ (if any_context cfg && g_sunk g && Nat.eqb (length bl) 0
                             && negb (Nat.eqb (length (g_pend g)) 0) then [EBreak] else [])
                      ++ [EMatched (g_off g) (lnum_of cfg (g_lnum g)) l]) ++ g_out g ++ [EBegin]).
-      { rewrite F4, Hsub, log_brk. rewrite Hoff, Rlnum, Hoff.
+      { rewrite F4, Hsub, log_brk. rewrite Hoff, Rlnum, Hoff. replace (A + p - A) with p by lia.
         rewrite before_events_map.
         destruct (rev bl) as [|f0 fr] eqn:Efl.
         - (* no before-context lines *)
@@ -529,13 +534,17 @@ Section Sim.
     else if c_passthru cfg then g_other_step g l stop else g_pend_step g l stop.
   Proof. intro H. unfold g_step_s. rewrite H. cbn [negb andb]. rewrite andb_true_r. reflexivity. Qed.
 
-  Lemma lnum_next g p l : g_lnum g = 1 + count_lt ltb (firstn (g_off g) s) -> g_off g = p ->
+  Lemma lnum_next g p l : g_lnum g = 1 + base + count_lt ltb (firstn (g_off g - A) s) -> g_off g = A + p ->
     sub s p (p + length l) = l -> p + length l <= length s -> terminated ltb l ->
-    S (g_lnum g) = 1 + count_lt ltb (firstn (g_off g + length l) s).
-  Proof. intros Hl Hoff Hsub Hb Ht. rewrite Hoff. rewrite (count_lt_next p l Hsub Hb Ht). rewrite Hl, Hoff. lia. Qed.
+    S (g_lnum g) = 1 + base + count_lt ltb (firstn (g_off g + length l - A) s).
+  Proof.
+    intros Hl Hoff Hsub Hb Ht. rewrite Hl, Hoff.
+    replace (A + p + length l - A) with (p + length l) by lia. replace (A + p - A) with p by lia.
+    rewrite (count_lt_next p l Hsub Hb Ht). lia.
+  Qed.
 
   Lemma ctx_step (k : ctx_kind) c g p l stop :
-    R0 c g -> g_off g = p -> next_line p l -> (k = CAfter -> 1 <= g_after g) -> (k = COther -> g_after g = 0) ->
+    R0 c g -> g_off g = A + p -> next_line p l -> (k = CAfter -> 1 <= g_after g) -> (k = COther -> g_after g = 0) ->
     k <> CBefore ->
     let g' := match k with CAfter => g_after_step g l stop | _ => g_other_step g l stop end in
     let c' := post_ctx cfg k c s p (p + length l) in
@@ -551,7 +560,7 @@ Section Sim.
     fold c' in F1, F2, F3, F4, F5, F6, F7, F8, F9, F10.
     assert (Hlog : log c' = g_out g' ++ [EBegin]).
     { unfold g'. destruct k; try congruence; cbn [g_after_step g_other_step g_out];
-        rewrite F4, Hsub, Rlog, Rlnum, Hoff; reflexivity. }
+        rewrite F4, Hsub, Rlog, Rlnum, Hoff; replace (A + p - A) with p by lia; reflexivity. }
     split; [exact F1|]. split; [exact F7|]. split; [exact Hlog|]. split; [exact F3|].
     intro Ht.
     assert (Hln' := lnum_next g p l Rlnum Hoff Hsub Hb Ht).
@@ -573,7 +582,7 @@ Section Sim.
   Qed.
 
   Lemma pend_step c g p l stop :
-    R0 c g -> g_off g = p -> next_line p l -> g_after g = 0 -> terminated ltb l ->
+    R0 c g -> g_off g = A + p -> next_line p l -> g_after g = 0 -> terminated ltb l ->
     R0 c (g_pend_step g l stop).
   Proof.
     intros HR Hoff Hnl Ha Ht.
@@ -583,18 +592,24 @@ Section Sim.
     constructor; cbn [g_pend_step g_off g_out g_after g_sunk g_matched g_pend g_lnum rev]; try assumption.
     - now rewrite Rafter.
     - apply laid_app. split; [exact Rlaid|]. cbn [laid p_off p_bytes p_lnum].
-      rewrite Rllv, Hoff. repeat split; auto. rewrite Rlnum, Hoff. reflexivity.
+      assert (Hq : last_line_visited c + plen (rev (g_pend g)) = p) by lia.
+      rewrite Hq. repeat split; auto. rewrite Rlnum, Hoff. replace (A + p - A) with p by lia. reflexivity.
     - rewrite plen_app. unfold plen at 2. cbn [map concat p_bytes]. rewrite app_nil_r. lia.
     - lia.
     - lia.
   Qed.
 
-  Notation slow := (slow_loop cfg M K true).
+  Notation slow := (slow_loop cfg M K bflag).
+
+  (* what the end-of-input rounds of the reader need: no after-context is owed beyond the last
+     delivered line *)
+  Definition tailok (c : core) : Prop :=
+    last_line_visited c <= pos c /\ (after_context_left c = 0 \/ last_line_visited c = pos c).
 
   Lemma slow_step fuel c g p l :
-    R c g -> g_stopped g = false -> g_off g = p -> next_line p l ->
+    R c g -> g_stopped g = false -> g_off g = A + p -> next_line p l ->
     let g' := g_step cfg (m_is_match M) g l in
-    exists c', Rfin c' g' /\ (terminated ltb l -> R c' g') /\
+    exists c', Rfin c' g' /\ (terminated ltb l -> R c' g') /\ tailok c' /\
       slow (S fuel) c s p = if g_stopped g' then OK false c' else slow fuel c' s (p + length l).
   Proof.
     intros HR Hns Hoff Hnl g'.
@@ -606,6 +621,7 @@ Section Sim.
     set (success := negb (Bool.eqb matched (c_invert cfg))).
     set (c0 := set_pos c (p + length l)).
     assert (HR00 : R0 c0 g) by (apply R0_set_pos; exact HR0).
+    assert (Hp0 : pos c0 = p + length l) by reflexivity.
     destruct success eqn:Es.
     - (* the line is a match *)
       destruct (matched_step c0 g p l HR00 Hoff Hns Hnl) as (c2 & Hrun & H2bin & Hc3).
@@ -615,12 +631,12 @@ Section Sim.
       rewrite andb_false_r. cbn [andb].
       exists (post_matched cfg c2 s p (p + length l)).
       assert (Hst : g_stopped (g_step_s cfg g l true) = false) by (unfold g_step_s; rewrite Hns; reflexivity).
-      assert (Hgo : g_off (g_step_s cfg g l true) = p + length l) by (unfold g_step_s; rewrite Hns, Hoff; reflexivity).
+      assert (Hgo : g_off (g_step_s cfg g l true) = A + (p + length l)) by (unfold g_step_s; rewrite Hns, Hoff; cbn [g_off]; lia).
       assert (Hgm : g_matched (g_step_s cfg g l true) = true) by (unfold g_step_s; rewrite Hns; reflexivity).
       rewrite Hst.
-      split. { unfold Rfin. rewrite Hgo, Hp3. split; [reflexivity|]. split; assumption. }
-      split; [|reflexivity].
-      intro Ht. split; [rewrite Hgo, Hp3; reflexivity|]. split; [rewrite Hgm; exact Hm3|]. exact (HR3 Ht).
+      split. { unfold Rfin. rewrite Hgo, Hp3, Hp0. split; [reflexivity|]. split; assumption. }
+      split; [|split; [split; [|right]; rewrite Hllv3, Hp3, Hp0; reflexivity|reflexivity]].
+      intro Ht. split; [rewrite Hgo, Hp3, Hp0; reflexivity|]. split; [rewrite Hgm; exact Hm3|]. exact (HR3 Ht).
     - (* not a match *)
       rewrite (g_step_nonmatch g l Hns). cbn zeta.
       pose proof HR00 as [Rabs Rbin Rlog Rafter Rsunk Rlaid Rllv Rllc Rln Rlnum Rap Rale].
@@ -635,9 +651,9 @@ Section Sim.
         cbn zeta in Fp, Fm, Flog, Fbin, FR.
         exists (post_ctx cfg CAfter c0 s p (p + length l)).
         cbn [g_after_step g_stopped]. rewrite Fm. change (has_matched c0) with (has_matched c). rewrite Rmatched.
-        split. { unfold Rfin. cbn [g_after_step g_off]. rewrite Fp. cbn [c0 pos set_pos]. rewrite Hoff. auto. }
-        split; [|reflexivity].
-        intro Ht. split; [cbn [g_after_step g_off]; rewrite Fp; cbn [c0 pos set_pos]; now rewrite Hoff|].
+        split. { unfold Rfin. cbn [g_after_step g_off]. rewrite Fp, Hp0, Hoff. split; [lia|auto]. }
+        split; [|split; [split; [|right]; rewrite Fp; reflexivity|reflexivity]].
+        intro Ht. split; [cbn [g_after_step g_off]; rewrite Fp, Hp0, Hoff; lia|].
         split; [cbn [g_after_step g_matched]; rewrite Fm; exact Rmatched|]. exact (FR Ht).
       + destruct (c_passthru cfg) eqn:Ep.
         * (* passthru *)
@@ -648,15 +664,15 @@ Section Sim.
           cbn zeta in Fp, Fm, Flog, Fbin, FR.
           exists (post_ctx cfg COther c0 s p (p + length l)).
           cbn [g_other_step g_stopped]. rewrite Fm. change (has_matched c0) with (has_matched c). rewrite Rmatched.
-          split. { unfold Rfin. cbn [g_other_step g_off]. rewrite Fp. cbn [c0 pos set_pos]. rewrite Hoff. auto. }
-          split; [|reflexivity].
-          intro Ht. split; [cbn [g_other_step g_off]; rewrite Fp; cbn [c0 pos set_pos]; now rewrite Hoff|].
+          split. { unfold Rfin. cbn [g_other_step g_off]. rewrite Fp, Hp0, Hoff. split; [lia|auto]. }
+          split; [|split; [split; [|right]; rewrite Fp; reflexivity|reflexivity]].
+          intro Ht. split; [cbn [g_other_step g_off]; rewrite Fp, Hp0, Hoff; lia|].
           split; [cbn [g_other_step g_matched]; rewrite Fm; exact Rmatched|]. exact (FR Ht).
         * (* the line stays pending *)
           exists c0. cbn [g_pend_step g_stopped]. change (has_matched c0) with (has_matched c). rewrite Rmatched.
-          split. { unfold Rfin. cbn [g_pend_step g_off g_out c0 pos log bin_off set_pos]. rewrite Hoff. auto. }
-          split; [|reflexivity].
-          intro Ht. split; [cbn [g_pend_step g_off c0 pos set_pos]; now rewrite Hoff|].
+          split. { unfold Rfin. cbn [g_pend_step g_off g_out]. rewrite Hp0, Hoff. split; [lia|auto]. }
+          split; [|split; [split; [rewrite Hp0; lia|left; change (after_context_left c0) with (after_context_left c); apply Nat.leb_gt in Eaf; lia]|reflexivity]].
+          intro Ht. split; [cbn [g_pend_step g_off]; rewrite Hp0, Hoff; lia|].
           split; [exact Rmatched|].
           apply (pend_step c0 g p l _ HR00 Hoff Hnl); [apply Nat.leb_gt in Eaf; lia|exact Ht].
   Qed.
@@ -680,21 +696,22 @@ Section Sim.
     rp_matched : has_matched c' = has_matched c;
     rp_log : log c' = g_out gk ++ [EBegin];
     rp_bin : bin_off c' = None;
-    rp_off : g_off gk = q;
+    rp_off : g_off gk = A + q;
+    rp_tail : last_line_visited c' <= q /\ (after_context_left c' = 0 \/ last_line_visited c' = q);
     rp_ns : g_stopped gk = false;
     rp_gm : g_matched gk = g_matched g;
     rp_R0 : Forall (terminated ltb) pre -> R0 c' gk;
   }.
 
   Lemma pend_run : forall pre c g p,
-    R0 c g -> g_off g = p -> g_stopped g = false -> c_passthru cfg = false ->
+    R0 c g -> g_off g = A + p -> g_stopped g = false -> c_passthru cfg = false ->
     c_stop_on_nonmatch cfg && g_matched g = false -> g_after g = 0 ->
     lines_seq pre p -> Forall nonsuccess pre ->
     run_post c c g (fold_left gstep pre g) (p + length (concat pre)) pre.
   Proof.
     induction pre as [|l r IH]; intros c g p HR Hoff Hns Hpt Hstop Ha Hseq Hnon.
     - cbn [fold_left concat length]. rewrite Nat.add_0_r.
-      pose proof HR as []. constructor; auto.
+      pose proof HR as []. constructor; auto. split; [lia|left; congruence].
     - destruct Hseq as (Hnl & Hterm & Hrest). inversion Hnon as [|? ? Hl Hr]. 
       cbn [fold_left concat]. rewrite app_length, Nat.add_assoc.
       assert (Hstep : gstep g l = g_pend_step g l false).
@@ -710,7 +727,7 @@ Section Sim.
       + clear Hnon. assert (Ht : terminated ltb l) by (apply Hterm; discriminate).
         pose proof (pend_step c g p l false HR Hoff Hnl Ha Ht) as HR1.
         specialize (IH c (g_pend_step g l false) (p + length l) HR1).
-        destruct IH as [I1 I2 I3 I4 I5 I6 I7 I8]; auto.
+        destruct IH as [I1 I2 I3 I4 I5 I5t I6 I7 I8]; auto.
         { cbn. lia. }
         constructor; auto.
         intro Hall. inversion Hall. auto.
@@ -733,16 +750,16 @@ Section Sim.
   Qed.
 
   Lemma after_loop_run : forall pre fuel c g p,
-    R0 c g -> g_off g = p -> last_line_visited c = p -> 1 <= g_after g ->
+    R0 c g -> g_off g = A + p -> last_line_visited c = p -> 1 <= g_after g ->
     g_stopped g = false -> c_passthru cfg = false -> c_stop_on_nonmatch cfg && g_matched g = false ->
     lines_seq pre p -> Forall nonsuccess pre -> length pre < fuel ->
-    exists c', after_loop cfg K true fuel c s p (p + length (concat pre)) = OK true c' /\
+    exists c', after_loop cfg K bflag fuel c s p (p + length (concat pre)) = OK true c' /\
                run_post c c' g (fold_left gstep pre g) (p + length (concat pre)) pre.
   Proof.
     induction pre as [|l r IH]; intros fuel c g p HR Hoff Hllv Ha Hns Hpt Hstop Hseq Hnon Hf.
     - destruct fuel as [|f]; [cbn in Hf; lia|]. cbn [after_loop concat length fold_left].
       rewrite Nat.add_0_r. unfold ltb_. rewrite line_step_end by lia.
-      exists c. split; [reflexivity|]. pose proof HR as []. constructor; auto.
+      exists c. split; [reflexivity|]. pose proof HR as []. constructor; auto. split; [lia|auto].
     - destruct fuel as [|f]; [cbn in Hf; lia|].
       destruct Hseq as (Hnl & Hterm & Hrest). inversion Hnon as [|? ? Hl Hr].
       pose proof (lines_seq_bound (l :: r) p (conj Hnl (conj Hterm Hrest)) ltac:(discriminate)) as Hbound.
@@ -759,6 +776,7 @@ Section Sim.
       cbn zeta in Fp, Fm, Flog, Fbin, FR.
       set (c1 := post_ctx cfg CAfter c s p (p + length l)) in *.
       set (g1 := g_after_step g l false) in *.
+      assert (Hllv1 : last_line_visited c1 = p + length l) by reflexivity.
       assert (Hacl : after_context_left c1 = g_after g - 1).
       { unfold c1, post_ctx, with_event. cbn [after_context_left set_visited set_log].
         destruct (count_lines_spec c p Rln ltac:(lia)) as (_ & _ & _ & _ & _ & _ & _ & _ & C9 & _).
@@ -778,23 +796,33 @@ Section Sim.
         * (* the credit is used up: the remaining lines stay pending *)
           exists c1. split; [reflexivity|].
           pose proof (pend_run (l2 :: r2) c1 g1 (p + length l) HR1) as P.
-          destruct P as [P1 P2 P3 P4 P5 P6 P7 P8]; auto.
+          destruct P as [P1 P2 P3 P4 P5 P5t P6 P7 P8]; auto.
           { unfold g1. cbn. lia. } { unfold g1. cbn. lia. }
           constructor; auto; try congruence.
           intro Hall. inversion Hall. auto.
         * destruct (IH f c1 g1 (p + length l) HR1) as (c' & Hrun & P); auto.
           { unfold g1. cbn. lia. } { unfold g1. cbn. lia. } { cbn in Hf |- *. lia. }
           exists c'. split; [exact Hrun|].
-          destruct P as [P1 P2 P3 P4 P5 P6 P7 P8].
+          destruct P as [P1 P2 P3 P4 P5 P5t P6 P7 P8].
           constructor; auto; try congruence.
           intro Hall. inversion Hall. auto.
   Qed.
 
+  Lemma lines_seq_count : forall ls p, lines_seq ls p -> length ls <= length (concat ls).
+  Proof.
+    induction ls as [|x xs IH]; intros p H; [cbn; lia|].
+    destruct H as ((Hsub & Hb & Hshape) & _ & Hr). cbn [concat length]. rewrite app_length.
+    specialize (IH _ Hr).
+    assert (1 <= length x).
+    { destruct Hshape as [Ht|[[Hne _] _]]; [now apply (terminated_length ltb)|destruct x; [congruence|cbn; lia]]. }
+    lia.
+  Qed.
+
   Lemma nonmatch_run pre c g p :
-    R0 c g -> g_off g = p -> g_stopped g = false -> c_passthru cfg = false ->
+    R0 c g -> g_off g = A + p -> g_stopped g = false -> c_passthru cfg = false ->
     c_stop_on_nonmatch cfg && g_matched g = false ->
     lines_seq pre p -> Forall nonsuccess pre ->
-    exists c', after_context_by_line cfg K true c s (p + length (concat pre)) = OK true c' /\
+    exists c', after_context_by_line cfg K bflag c s (p + length (concat pre)) = OK true c' /\
                run_post c c' g (fold_left gstep pre g) (p + length (concat pre)) pre.
   Proof.
     intros HR Hoff Hns Hpt Hstop Hseq Hnon.
@@ -809,13 +837,7 @@ Section Sim.
       apply after_loop_run; auto.
       destruct pre as [|l r]; [cbn; lia|].
       pose proof (lines_seq_bound (l :: r) p Hseq ltac:(discriminate)).
-      assert (length (l :: r) <= length (concat (l :: r))).
-      { clear -Hseq. revert p Hseq. generalize (l :: r) as ls. induction ls as [|x xs IH]; intros p H; [cbn; lia|].
-        destruct H as ((Hsub & Hb & Hshape) & _ & Hr). cbn [concat length]. rewrite app_length.
-        specialize (IH _ Hr).
-        assert (1 <= length x).
-        { destruct Hshape as [Ht|[[Hne _] _]]; [now apply (terminated_length ltb)|destruct x; [congruence|cbn; lia]]. }
-        lia. }
+      pose proof (lines_seq_count (l :: r) p Hseq).
       lia.
   Qed.
 
@@ -863,42 +885,76 @@ Section Sim.
     destruct (c_passthru cfg); reflexivity.
   Qed.
 
+  Lemma R_tailok c g : R c g -> tailok c.
+  Proof.
+    intros (Hp & _ & [Rabs Rbin Rlog Rafter Rsunk Rlaid Rllv Rllc Rln Rlnum Rap Rale]). unfold tailok.
+    split; [lia|].
+    destruct (Nat.eq_dec (after_context_left c) 0) as [E|E]; [left; exact E|right].
+    assert (Ha : 1 <= g_after g) by lia. rewrite (Rap Ha) in Rllv. cbn in Rllv. lia.
+  Qed.
+
+  (* what one call of match_by_line leaves behind, [gf] being the reference state after all the
+     lines [ls] of the buffer from the scan position on *)
+  Definition mbl_post (ls : list bytes) (b : bool) (c' : core) (gf : gstate) : Prop :=
+    Rfin c' gf /\
+    (b = true -> g_off gf = A + length s /\ g_stopped gf = false /\ tailok c') /\
+    (b = false -> g_stopped gf = true) /\
+    (b = true -> Forall (terminated ltb) ls -> R c' gf).
+
+  Lemma mbl_post_weaken ls ls' b c' gf :
+    (Forall (terminated ltb) ls' -> Forall (terminated ltb) ls) -> mbl_post ls b c' gf -> mbl_post ls' b c' gf.
+  Proof. intros H (H1 & H2 & H3 & H4). unfold mbl_post. auto 6. Qed.
+
   Lemma slow_loop_lines : forall ls c g p fuel,
-    lines_at ls p -> R c g -> g_off g = p -> g_stopped g = false -> length ls < fuel ->
+    lines_at ls p -> R c g -> g_off g = A + p -> g_stopped g = false -> length ls < fuel ->
     let gf := fold_left (g_step cfg (m_is_match M)) ls g in
-    exists b c', slow fuel c s p = OK b c' /\ Rfin c' gf /\
-                 (b = true -> g_off gf = length s).
+    exists b c', slow fuel c s p = OK b c' /\ mbl_post ls b c' gf.
   Proof.
     induction ls as [|l r IH]; intros c g p fuel Hat HR Hoff Hns Hf gf.
     - cbn [lines_at] in Hat. destruct fuel as [|f]; [cbn in Hf; lia|].
       cbn [slow_loop]. unfold ltb_. rewrite line_step_end by lia.
       exists true, c. split; [reflexivity|]. unfold gf. cbn [fold_left].
-      destruct HR as (Hp0 & Hm0 & []). unfold Rfin. repeat split; auto. lia.
+      pose proof (R_tailok c g HR) as Htl.
+      pose proof HR as (Hp0 & Hm0 & []). unfold mbl_post, Rfin.
+      split; [auto|]. split; [intros _; split; [lia|auto]|]. split; [discriminate|auto].
     - destruct fuel as [|f]; [cbn in Hf; lia|].
       destruct Hat as (Hnl & Hterm & Hrest).
-      destruct (slow_step f c g p l HR Hns Hoff Hnl) as (c' & Hfin & HR' & Heq).
+      destruct (slow_step f c g p l HR Hns Hoff Hnl) as (c' & Hfin & HR' & Htl & Heq).
       cbn zeta in *. unfold gf. cbn [fold_left].
       set (g' := g_step cfg (m_is_match M) g l) in *.
       rewrite Heq.
       destruct (g_stopped g') eqn:Est.
-      + exists false, c'. split; [reflexivity|]. rewrite fold_stopped by exact Est. split; [exact Hfin|discriminate].
+      + exists false, c'. split; [reflexivity|]. rewrite fold_stopped by exact Est.
+        unfold mbl_post. split; [exact Hfin|]. split; [discriminate|]. split; [auto|discriminate].
       + destruct r as [|l2 r2].
         * cbn [fold_left]. cbn [lines_at] in Hrest.
           destruct f as [|f']; [cbn in Hf; lia|].
           cbn [slow_loop]. unfold ltb_. rewrite line_step_end by lia.
-          exists true, c'. split; [reflexivity|]. split; [exact Hfin|].
-          intros _. unfold g'. rewrite g_step_off by exact Hns. lia.
-        * apply (IH c' g' (p + length l) f); auto.
+          exists true, c'. split; [reflexivity|]. unfold mbl_post. split; [exact Hfin|].
+          split. { intros _. split; [|auto]. unfold g'. rewrite g_step_off by exact Hns. lia. }
+          split; [discriminate|]. intros _ Hall. inversion Hall. auto.
+        * destruct (IH c' g' (p + length l) f) as (b & c'' & Hrun & Hfin' & Htrue & Hfalse & HRf); auto.
           -- apply HR'. apply Hterm. discriminate.
           -- unfold g'. rewrite g_step_off by exact Hns. lia.
           -- cbn in Hf |- *. lia.
+          -- exists b, c''. split; [exact Hrun|]. unfold mbl_post. split; [exact Hfin'|].
+             split; [exact Htrue|]. split; [exact Hfalse|]. intros Hb Hall. inversion Hall. auto.
   Qed.
+End Sim.
 
-  (* ------------------------------------------------------------------ SliceByLine::run *)
+(* ------------------------------------------------------------------ SliceByLine::run:
+   the buffer is the whole input (A = 0, base = 0, Core.binary = true) *)
+Section SimSlice.
+  Variable cfg : config.
+  Variable M : matcher.
+  Hypothesis Hbin : c_binary cfg = BNone.
+  Variable s : bytes.
+  Notation ltb := (lt_byte (c_lt cfg)).
+  Notation K := (fun _ : nat => Continue).
   Hypothesis Hslow : forall c, is_line_by_line_fast cfg M c = false.
 
   Lemma R_init :
-    R (set_log (core_new cfg) [EBegin]) g_init.
+    R cfg s 0 0 (set_log (core_new cfg) [EBegin]) g_init.
   Proof.
     split; [reflexivity|]. split; [reflexivity|].
     constructor; cbn; try reflexivity; try exact I; try lia.
@@ -913,14 +969,14 @@ Section Sim.
     set (c0 := set_log (core_new cfg) [EBegin]).
     rewrite (detect_binary_K cfg Hbin) by reflexivity.
     pose proof R_init as HR0. fold c0 in HR0.
-    pose proof (lines_at_shape _ (split_lines_shape ltb s) 0 ltac:(lia)
+    pose proof (lines_at_shape cfg s _ (split_lines_shape ltb s) 0 ltac:(lia)
                   ltac:(rewrite split_lines_concat; reflexivity)) as Hat.
     assert (Hfuel : length (split_lines ltb s) < S (length s)).
     { pose proof (lines_count_le _ (shape_lengths ltb _ (split_lines_shape ltb s))) as Hlen.
       rewrite split_lines_concat in Hlen. lia. }
-    destruct (slow_loop_lines (split_lines ltb s) c0 g_init 0 (S (length s)) Hat HR0 eq_refl eq_refl Hfuel)
-      as (b & c' & Hrun & (Fpos & Flog & Fbin) & Hb).
-    cbn zeta in *.
+    destruct (slow_loop_lines cfg M Hbin s 0 0 true (split_lines ltb s) c0 g_init 0 (S (length s)) Hat HR0 eq_refl eq_refl Hfuel)
+      as (b & c' & Hrun & (Fpos & Flog & Fbin) & Hb & _).
+    cbn zeta in *. cbn [Nat.add] in Fpos, Hb.
     unfold grep_ref, g_run.
     set (gf := fold_left (g_step cfg (m_is_match M)) (split_lines ltb s) g_init) in *.
     assert (Hfinish : forall c1, pos c1 = g_off gf -> log c1 = g_out gf ++ [EBegin] -> bin_off c1 = None ->
@@ -937,8 +993,8 @@ Section Sim.
       change (pos c0) with 0. rewrite Hrun.
       destruct b.
       + cbn [slice_loop].
-        destruct (Nat.leb_spec (length s) (pos c')) as [_|Hlt]; [|rewrite Fpos, (Hb eq_refl) in Hlt; lia].
+        destruct (Nat.leb_spec (length s) (pos c')) as [_|Hlt]; [|rewrite Fpos, (proj1 (Hb eq_refl)) in Hlt; lia].
         apply Hfinish; auto.
       + apply Hfinish; auto.
   Qed.
-End Sim.
+End SimSlice.
